@@ -128,7 +128,7 @@ def _repo_text_for(includes_repo_src):
     return b
 
 
-def build_harness(name, profile, sources, exclude=(), wraps=(), cflags=(), includes_repo_src=(), libs=("-lX11", "-lpcre", "-ldl", "-lm", "-lpthread")):
+def build_harness(name, profile, sources, exclude=(), wraps=(), cflags=(), includes_repo_src=(), dep_files=(), libs=("-lX11", "-lpcre", "-ldl", "-lm", "-lpthread")):
     """sources: harness/engine C files (relative to /verif).  exclude: library sources whose object
     must not be linked because the harness #includes the .c itself."""
     cc, pf = PROFILES[profile]
@@ -138,11 +138,13 @@ def build_harness(name, profile, sources, exclude=(), wraps=(), cflags=(), inclu
     lib = build_lib(profile)
     outdir = os.path.join(BUILD, profile, "h", name)
     dep = _repo_text_for(includes_repo_src)
+    for df in dep_files:
+        dep += open(df, "rb").read()
     objs = []
     with cf.ThreadPoolExecutor(NCPU) as ex:
         futs = []
         for s in list(sources) + ["engine/mc.c"]:
-            src = os.path.join(VERIF, s)
+            src = s if os.path.isabs(s) else os.path.join(VERIF, s)
             obj = os.path.join(outdir, os.path.basename(s)[:-2] + ".o")
             futs.append(ex.submit(_compile, cc, flags, src, obj, dep))
         for f in futs:
